@@ -265,7 +265,14 @@ fn session(sc: &ScenarioB, opts_keep: usize) -> (Vec<Found>, Vec<StepRecord>, St
             let sig = format!("{class} {}", game.to_fen());
             add_found(&mut found, &class, format!("search #{i}: {msg}"), sig);
         }
-        let after_answer = rec.first_stop.is_some() && (rec.calls_after_stop > 0 || rec.nodes_after_stop > 0);
+        // positions examined under *another* time strategy created while this search was running
+        // (e.g. a fallback search started after the stop was observed) count as well
+        let extra_calls: u64 = seam::with_sim(|s| s.searches.iter().skip(search_id + 1).map(|r| r.calls).sum()).unwrap_or(0);
+        if extra_calls > 0 {
+            probe(&mut stats.probes, "extra_time_strategy_created_inside_a_search");
+        }
+        let stopped = rec.first_stop.is_some() || rec.forced_at.is_some();
+        let after_answer = (rec.first_stop.is_some() && (rec.calls_after_stop > 0 || rec.nodes_after_stop > 0)) || (stopped && extra_calls > 0);
         let after_flag = rec.forced_at.is_some() && rec.calls_after_forced > 0;
         if after_answer || after_flag {
             let at = rec.first_stop.map(|p| p.0).or(rec.forced_at.map(|p| p.0)).unwrap_or(0);
@@ -275,7 +282,7 @@ fn session(sc: &ScenarioB, opts_keep: usize) -> (Vec<Found>, Vec<StepRecord>, St
                 format!(
                     "search #{i} went on examining positions ({} further nodes, {} further limit checks) after poll #{at} had observed the stop request / expired limit ({}, `{}`)",
                     rec.nodes_after_stop,
-                    rec.calls_after_stop.max(rec.calls_after_forced),
+                    rec.calls_after_stop.max(rec.calls_after_forced).max(extra_calls),
                     game.to_fen(),
                     step.go.line()
                 ),
